@@ -517,6 +517,8 @@ def run(seed, sc, trace=None, tier='quick'):
                         slots = preplace(nodelist, task['description'])
                         if not slots:
                             continue          # the application holds it back
+                        if sc.get('jsrun') and spec.get('rs_group'):
+                            slots = to_jsrun_slots(slots, spec['rs_group'])
                         if spec.get('shuffle'):
                             # the application may list the ranks in any order
                             import random as _random
@@ -762,6 +764,29 @@ def preplace(nodelist, d):
     if not slots:
         return None
     return [s.as_dict() for s in slots]
+
+
+def to_jsrun_slots(slots, group):
+    '''application made placement in the slot format of ContinuousJsrun / the
+    JSRUN launcher: one entry per resource set with one core list per rank.
+    group `rank`: one resource set per rank; `node`: consecutive ranks on the
+    same node share a resource set (sets of different sizes)'''
+    out = list()
+    for s in slots:
+        cores = [c['index'] if isinstance(c, dict) else c[0]
+                 for c in s['cores']]
+        if group == 'node' and out and \
+                out[-1]['node_index'] == s['node_index']:
+            out[-1]['cores'].append(cores)
+            out[-1]['gpus'].append([])
+            out[-1]['lfs'] += s.get('lfs') or 0
+            out[-1]['mem'] += s.get('mem') or 0
+        else:
+            out.append({'node_name': s['node_name'],
+                        'node_index': s['node_index'],
+                        'cores': [cores], 'gpus': [[]],
+                        'lfs': s.get('lfs') or 0, 'mem': s.get('mem') or 0})
+    return out
 
 
 def exec_slots(st, d):
@@ -1178,6 +1203,13 @@ def oracle_c03(sim, sc, st, nodes):
                        'preplaced': sorted(st['preplaced'])},
                       len(sim.events))
                     break
+            # ... and the scheduler must not believe otherwise (the counter
+            # decides between "wait" and "can never be scheduled")
+            cnt = getattr(child, '_active_cnt', 0)
+            if cnt != 0:
+                v(sim, 'C03', 'active_count_drift', 'scheduler', None,
+                  {'active_cnt': cnt, 'preplaced': sorted(st['preplaced'])},
+                  len(sim.events))
 
 
 def cause_of(st, uid, site):
